@@ -107,7 +107,11 @@ func loadProgram(harnessDirs []string) (*sx.Program, *sx.LoadStats, map[string]s
 			patterns = append(patterns, "./"+p)
 		}
 	}
-	prog, st, err := sx.Load(repoDir, symOv, patterns)
+	mf, err := modfileCopy()
+	if err != nil {
+		return nil, nil, nil, err
+	}
+	prog, st, err := sx.Load(repoDir, symOv, patterns, "-modfile="+mf)
 	return prog, st, v2r, err
 }
 
@@ -217,9 +221,25 @@ func printReport(rep *sx.Report, verbose bool) {
 	sort.Strings(ws)
 	fmt.Println("  witnesses:", strings.Join(ws, " "))
 	fmt.Printf("  asserts evaluated=%d (solver-decided %d)\n", rep.Asserts, rep.AssertQueries)
+	groups := map[string][]*sx.Violation{}
+	var order []string
 	for _, v := range rep.Violations {
+		k := v.Kind + "|" + v.Label + "|" + v.Facts["site"]
+		if _, ok := groups[k]; !ok {
+			order = append(order, k)
+		}
+		groups[k] = append(groups[k], v)
+	}
+	for _, k := range order {
+		vs := groups[k]
+		v := vs[0]
+		for _, o := range vs {
+			if len(o.Decisions) < len(v.Decisions) {
+				v = o
+			}
+		}
 		b, _ := json.Marshal(v.Model)
-		fmt.Printf("  VIOLATION-CANDIDATE kind=%s label=%q where=%s\n     msg=%s\n     facts=%v\n     model=%s\n     decisions=%v\n", v.Kind, v.Label, v.Where, trunc(v.Msg, 700), v.Facts, trunc(string(b), 600), v.Decisions)
+		fmt.Printf("  VIOLATION-CANDIDATE x%d kind=%s label=%q where=%s\n     msg=%s\n     facts=%v\n     model=%s\n     choices=%v\n     decisions=%v\n     trace=%v\n", len(vs), v.Kind, v.Label, v.Where, trunc(v.Msg, 900), v.Facts, trunc(string(b), 600), v.Choices, v.Decisions, v.Trace)
 	}
 	if verbose {
 		var fns []string
@@ -248,3 +268,22 @@ func trunc(s string, n int) string {
 }
 
 var _ = time.Now
+
+// modfileCopy copies /repo's go.mod and go.sum next to each other under /verif/out so that the go command
+// (run with -mod=mod because overlay files import packages that go.mod lists as indirect) never rewrites /repo/go.mod.
+func modfileCopy() (string, error) {
+	dir := filepath.Join(verifDir, "out", "modfile")
+	if err := os.MkdirAll(dir, 0o755); err != nil {
+		return "", err
+	}
+	for _, f := range []string{"go.mod", "go.sum"} {
+		b, err := os.ReadFile(filepath.Join(repoDir, f))
+		if err != nil {
+			return "", err
+		}
+		if err := os.WriteFile(filepath.Join(dir, f), b, 0o644); err != nil {
+			return "", err
+		}
+	}
+	return filepath.Join(dir, "go.mod"), nil
+}
